@@ -78,7 +78,8 @@ theorem Q.renext {ρ ρ' : IdRel} {t u : LSt} (h : Q ρ t u) (hs : ∀ a b, ρ a
     C := h.C.imp (fun _ _ x => x.imp hs), K := h.K.imp (fun _ _ x => x.imp hs),
     sigs := F2.imp h.sigs (fun p _ hp' _ hr => ⟨hs _ _ hr.1, hr.2.step (h.inv p hp').2 hs hn⟩),
     ownedT := h.ownedT.mono hs,
-    ownedK := KR.imp h.ownedK hs (fun _ _ x => x.imp hs), pb := hp,
+    ownedK := KR.imp h.ownedK hs (fun _ _ x => x.imp hs),
+    ownedG := KR.imp h.ownedG hs (fun _ _ x => x), pb := hp,
     depth := h.depth, steps := h.steps, trace := h.trace, k1 := h.k1, k2 := h.k2, k1' := h.k1', k2' := h.k2',
     keys := h.keys,
     inv := fun p hp' => ⟨Nat.lt_of_lt_of_le (h.inv p hp').1 h1, (h.inv p hp').2.mono h1⟩ }
